@@ -260,6 +260,23 @@ fn tables(sink: &mut Sink) {
         sink.op(&format!("pred_ver_of {}", crate::proto::hexs(s)), &format!("{}", v.as_ref().map(|v| format!("{:?}", v)).unwrap_or_else(|_| "none".into())), true);
         sink.oracle(back.as_deref() == Some(s), "PredicateVer string table is not its own inverse", name);
     }
+    // the version enums as JSON: written as their string, read back as themselves
+    for s in ["link", "https://in-toto.io/Statement/v0.1"] {
+        if let Ok(v) = StatementVer::try_from(s.to_string()) {
+            let j = serde_json::to_value(v).ok();
+            sink.oracle(j == Some(Value::String(s.to_string())), "a statement version is not written as its string", s);
+            let back = serde_json::from_value::<StatementVer>(Value::String(s.to_string())).ok();
+            sink.oracle(back == Some(v) && !format!("{}", v).is_empty(), "a statement version's string is not read back as that version", s);
+        }
+    }
+    for s in PRED_TYPES {
+        if let Ok(v) = PredicateVer::try_from(s.to_string()) {
+            let j = serde_json::to_value(v).ok();
+            sink.oracle(j == Some(Value::String(s.to_string())), "a predicate version is not written as its string", s);
+            let back = serde_json::from_value::<PredicateVer>(Value::String(s.to_string())).ok();
+            sink.oracle(back == Some(v), "a predicate version's string is not read back as that version", s);
+        }
+    }
     for s in ["link", "https://in-toto.io/Statement/v0.1"] {
         let v = StatementVer::try_from(s.to_string());
         let back: Option<String> = v.as_ref().ok().map(|v| (*v).into());
